@@ -197,6 +197,17 @@ func c16Enum(thorough bool) mc.Enum {
 			}
 		}
 	}
+	// (a') labels that contain the letters of a top-level domain, their own or the other one, at every offset
+	for _, full := range []string{"myjklname.jkl", "jklfan.jkl", "ajkl.jkl", "fanjkl.jkl", "jkl.jkl", "anibcfan.ibc", "ibcx.ibc", "ibc.ibc", "jkl.ibc", "xibc.jkl", "jkljkl.jkl", "a.jkl.jkl"} {
+		for _, years := range []int64{1, 2} {
+			for _, who := range []string{"A", "B"} {
+				full, years, who := full, years, who
+				e.Cases = append(e.Cases, mc.Case{Desc: fmt.Sprintf("first|%s|%d|%s", full, years, who), Run: func(env world.Env) mc.CaseResult {
+					return c16Register(env, who, full, years)
+				}})
+			}
+		}
+	}
 	// (b) second registration of a genesis-seeded name at block offsets around its expiry
 	for _, s := range c16Seeds {
 		for blocks := 0; blocks <= 4; blocks++ {
@@ -282,7 +293,7 @@ func c16Enum(thorough bool) mc.Enum {
 func init() {
 	CaseReplayers["C16/register"] = func(r *mc.Run, c string) { r.ReplayCase(c16Enum(true), c) }
 	Props["C16"] = Prop{Level: "exploration", Run: func(r *mc.Run, tier string) {
-		r.Rules = append(r.Rules, "full product: names of length 1..6 x {jkl,ibc} x case/space variants x years {1,2,5} x registrant {A,B,under-funded P}; every genesis-seeded name (expired long ago / a year ago / expiring in 3 blocks / live) x block offset 0..4 x {owner, other} x years; register-twice sequences. Non-trivial = accepted registrations; distinct by outcome class (accepted|rejected / fresh|live|boundary|expired x own|other)")
+		r.Rules = append(r.Rules, "full product: names of length 1..6 x {jkl,ibc} x case/space variants (and 12 labels that contain the letters of a top-level domain) x years {1,2,5} x registrant {A,B,under-funded P}; every genesis-seeded name (expired long ago / a year ago / expiring in 3 blocks / live) x block offset 0..4 x {owner, other} x years; register-twice sequences. Non-trivial = accepted registrations; distinct by outcome class (accepted|rejected / fresh|live|boundary|expired x own|other)")
 		r.Assumptions = append(r.Assumptions, "yearly price table frozen in the harness (10M ujkl jkl, 50M ibc; x24,12,6,3,1 by length)", "height == Expires unspecified", "chain starts at height 12,000,000 so that multi-year expiries lie in the past")
 		r.AddEnum(c16Enum(true), workers(), time.Time{})
 	}}
